@@ -483,15 +483,18 @@ def realisations(ad, env, real, td, group, tag):
         rows = [k for k, i in enumerate(group) if i["cap"] & (i["cap"] - 1) == 0]
 
         def dataset():
-            sub = td[torch.tensor(rows)]
+            # every instance twice: as it is, and with demands AND capacity doubled (the same normalised instance), so
+            # that the file carries DIFFERENT capacities per instance (merged datasets)
+            sub = td[torch.tensor(rows + rows)]
             f = os.path.join(d, "vrp_raw.npz")
+            dem = [group[k]["dem"] for k in rows] + [[2 * x for x in group[k]["dem"]] for k in rows]
+            cap = [group[k]["cap"] for k in rows] + [2 * group[k]["cap"] for k in rows]
             np.savez(f, depot=sub["depot"].numpy(), locs=sub["locs"].numpy(),
-                     demand=np.array([group[k]["dem"] for k in rows], dtype=np.float32),
-                     capacity=np.array([group[k]["cap"] for k in rows], dtype=np.float32))
+                     demand=np.array(dem, dtype=np.float32), capacity=np.array(cap, dtype=np.float32))
             return CVRPEnv(generator_params={"num_loc": group[0]["N"]}, check_solution=False), CVRPEnv.load_data(f)
 
         if rows:
-            yield "dataset file + CVRPEnv.load_data", "same", dataset, rows
+            yield "dataset file + CVRPEnv.load_data", "same", dataset, rows + rows
     if ad.name in ("fjsp", "jssp"):
         for route in ("load_data", "file_generator"):
             yield "text files + " + route, "text", \
